@@ -169,12 +169,17 @@ impl<P: SingleObjectiveProblem> Selection<P> for DECurrentToBest {
         let best = f::best(population).wrap_err("population is empty")?;
         let selection = population
             .iter()
-            .flat_map(|individual| {
+            .enumerate()
+            .flat_map(|(index, individual)| {
                 let mut selection = vec![individual, best];
 
                 // Sample only individuals randomly that are not `individual`
-                let remaining_population: Vec<_> =
-                    population.iter().filter(|&i| i != individual).collect();
+                let remaining_population: Vec<_> = population
+                    .iter()
+                    .enumerate()
+                    .filter(|&(i, _)| i != index)
+                    .map(|(_, other)| other)
+                    .collect();
 
                 selection.extend(remaining_population.choose_multiple(rng, size));
                 selection
